@@ -923,7 +923,27 @@ func (e *Exec) concreteBytes(s *SliceV) ([]byte, bool) {
 
 // ---- slices / arrays ----
 
+// AllocLimit: more elements than this in one allocation requested by a client message counts as a crash.
+const AllocLimit = 1 << 31
+
+// AllocExplore: symbolic allocation sizes are explored up to this many elements.
+const AllocExplore = 12
+
 func (e *Exec) makeSlice(f *Frame, x *ssa.MakeSlice) Value {
+	// a symbolic size: the solver decides whether it can be negative or beyond AllocLimit elements (a
+	// run-time panic or an allocation no server survives); what remains is explored for small sizes only
+	for _, a := range []ssa.Value{x.Len, x.Cap} {
+		if t := e.get(f, a).(*Term); !t.Const {
+			c := e.C
+			lim := c.BVConst(t.Sort.W, AllocLimit)
+			e.implicit(c.And(c.SLE(c.BVConst(t.Sort.W, 0), t), c.SLE(t, lim)), "makeslice", fmt.Sprintf("makeslice: len out of range, or more than %d elements in one allocation", AllocLimit))
+			e.noteStub(fmt.Sprintf("cut: allocations of symbolic size are checked against 0..%d elements, then explored up to %d elements only", AllocLimit, AllocExplore))
+			e.Assume(c.SLE(t, c.BVConst(t.Sort.W, AllocExplore)))
+			if e.S.Check() == Unsat {
+				panic(pathEnd{"alloc-cut"})
+			}
+		}
+	}
 	n := e.sizeArg(e.get(f, x.Len), "make len")
 	cp := e.sizeArg(e.get(f, x.Cap), "make cap")
 	if n < 0 || cp < n {
